@@ -44,6 +44,20 @@ type Env struct {
 	Step     int
 	OnCall   func(op string, failed bool)
 	Path     string // file of the file store, if any
+	// View, when set, returns the catalog that calls are observed against (the working
+	// catalog of an open session transaction); the committed catalog is then recorded as well
+	View  func() *lungo.Catalog
+	Actor string
+	keep  *util.NDJSON
+}
+
+func (e *Env) viewCat() *lungo.Catalog {
+	if e.View != nil {
+		if c := e.View(); c != nil {
+			return c
+		}
+	}
+	return e.Engine.Catalog()
 }
 
 var missing = V{"t": "missing"}
@@ -226,7 +240,11 @@ func (e *Env) coll(ns string) lungo.ICollection {
 
 // Do performs a call, records it and returns the event.
 func (e *Env) Do(c Call) V {
-	pre, evsBefore, _ := e.Obs(nil)
+	pre, evsBefore, _ := e.Obs(e.viewCat())
+	var cpre V
+	if e.View != nil {
+		cpre = e.dumpCat(e.Engine.Catalog())
+	}
 	var res V
 	func() {
 		defer func() {
@@ -241,7 +259,7 @@ func (e *Env) Do(c Call) V {
 	if res == nil {
 		return nil
 	}
-	post, evsAfter, ts := e.Obs(nil)
+	post, evsAfter, ts := e.Obs(e.viewCat())
 	// the oplog only grows in these histories (retention is not reached); new events = suffix
 	var delta []interface{}
 	if len(evsAfter) >= len(evsBefore) {
@@ -264,6 +282,13 @@ func (e *Env) Do(c Call) V {
 	}
 	e.T.Add(c.NS)
 	ev := V{"fn": "call", "hist": e.Hist, "step": e.Step, "op": c.Op, "ns": c.NS, "a": c.A, "pre": pre, "res": res, "post": post, "ev": delta, "ts": ts}
+	if e.Actor != "" {
+		ev["actor"] = e.Actor
+	}
+	if cpre != nil {
+		ev["cpre"] = cpre
+		ev["cpost"] = e.dumpCat(e.Engine.Catalog())
+	}
 	if e.Trace != nil {
 		e.Trace.Write(ev)
 	}
